@@ -1692,6 +1692,8 @@ fn gen_c16(r: &mut Rng, index: u64) -> String {
     let mut qs: Vec<GQ> = Vec::new();
     let mut prev: Option<Qd> = None;
     for k in kinds {
+        // nothing valid to duplicate yet (only invalid names so far): a plain answered query
+        let k = if k == 6 && prev.is_none() { 0 } else { k };
         let mut q = match &prev {
             Some(p) if r.chance(1, 3) => p.clone(),
             _ => plain_q(r),
